@@ -1138,6 +1138,25 @@ Proof.
   - intros Hr Hnone. destruct (Hfail Hr Hnone) as [_ [Hw _]]. exact Hw.
 Qed.
 
+(* the side condition of the replace step is necessary: in EVERY world satisfying Inv, the outcome "failed after the
+   new workload was deployed" breaks the invariant as soon as the old workload holds any resource *)
+Theorem replace_window_breaks_usage : forall opi index old w w' r,
+  Inv w -> find_wl w (w_id old) = Some old -> w_res old <> rzero ->
+  replace_post opi index old w w' r -> snd r <> None -> fst (fst r) <> None ->
+  ~ use_ok w'.
+Proof.
+  intros opi index old w w' r HI Hold Hres [Hp Hn Hpl Hs Ho Hok Hfail Hwin] Hr Hnew Huse.
+  destruct (Hwin Hr Hnew) as [_ [Hperm _]].
+  destruct (find_wl_id _ _ _ Hold) as [_ Hin].
+  destruct (wf_plug w (inv_wf w HI) old Hin) as [p Hfp].
+  unfold find_plug in Hfp. apply find_some in Hfp. destruct Hfp as [Hpin Hpn]. apply Nat.eqb_eq in Hpn.
+  assert (Hp' : In p (plugs w')) by (rewrite Hpl; exact Hpin).
+  pose proof (Huse p Hp') as E. rewrite (sum_on_perm _ _ _ Hperm) in E. rewrite sum_on_app in E.
+  rewrite (inv_use w HI p Hpin) in E. unfold sum_on at 3 in E. simpl in E. rewrite Hpn, Nat.eqb_refl in E. simpl in E.
+  apply Hres. destruct (sum_on (wls w) (w_node old)) as [a b], (w_res old) as [c d].
+  unfold radd, rzero in *; simpl in *. inversion E. f_equal; lia.
+Qed.
+
 (* ================================================================== histories *)
 (* One step of a history: an operation of the cluster API and the position of its (at most one) fault among
    the faultable calls the operation makes ([None], or a position beyond the last call: no fault). *)
